@@ -476,6 +476,36 @@ def run(repo, chk):
     inner = [n for n in outer[0].body if isinstance(n, ast.For)]
     if len(inner) != 2:
         raise AnchorError("_get_all_tank_controls: expected a min-level loop and a max-level loop, found %d" % len(inner))
+    # constructor calls are read through the real __init__ signatures (positional or keyword arguments alike): role name -> value
+    sigs, defaults = {}, {}
+    for cname in ("ValueCondition", "RelativeCondition", "_InternalControlAction", "Control"):
+        ini = repo.func(CTRL, cname + ".__init__")
+        a_ = ini.args
+        if a_.vararg or a_.kwarg:
+            raise ExtractError("%s.__init__ takes star arguments" % cname)
+        sigs[cname] = [x.arg for x in a_.args[1:]] + [x.arg for x in a_.kwonlyargs]
+        for x, d_ in list(zip(a_.args[len(a_.args) - len(a_.defaults):], a_.defaults)) + [(x, d_) for x, d_ in zip(a_.kwonlyargs, a_.kw_defaults) if d_ is not None]:
+            defaults[(cname, x.arg)] = d_.value if isinstance(d_, ast.Constant) else Opaque(unparse(d_))
+    ROLES = {"ValueCondition": ("source_obj", "source_attr", "relation", "threshold"),
+             "RelativeCondition": ("source_obj", "source_attr", "relation", "threshold_obj", "threshold_attr"),
+             "_InternalControlAction": ("target_obj", "internal_attribute", "value", "property_attribute"),
+             "Control": ("condition", "then_action", "priority")}
+    for cname, roles in ROLES.items():
+        if not set(roles) <= set(sigs[cname]):
+            raise AnchorError("%s.__init__ no longer has the parameters %s" % (cname, sorted(set(roles) - set(sigs[cname]))))
+
+    def bound(ev_):
+        cname = ev_[1].split("(", 1)[0]
+        _, args_, kw_ = ev_[2]
+        if len(args_) > len(sigs[cname]) or set(kw_) - set(sigs[cname]):
+            raise ExtractError("cannot bind the arguments of %s" % ev_[1][:120])
+        b_ = {k_: v_ for (c_, k_), v_ in defaults.items() if c_ == cname}
+        b_.update(zip(sigs[cname], args_))
+        b_.update(kw_)
+        return b_
+
+    def txt_(v):
+        return v.text if isinstance(v, Opaque) else v
     for li, (lp, lim) in enumerate(zip(inner, ("min", "max"))):
         pre = [s for s in outer[0].body if s.lineno < lp.lineno and isinstance(s, ast.Assign)]
         ex3 = AtomExec()
@@ -522,39 +552,44 @@ def run(repo, chk):
             has_cv = kind in ("pipe+cv", "pump")
             nctl = 1 if has_cv else 3
             chk.expect(len(ctl) == nctl and len(o.env["tank_controls"]) == nctl, "R-C06-3", "%s: %d control(s) created and collected" % (case, nctl), loc(tc, lp), found=(len(ctl), len(o.env["tank_controls"])))
-            a_ok = len(acts) == 2 and acts[0][2][1][1:] == ["_internal_status", Opaque("LinkStatus.Closed"), "status"] and acts[1][2][1][1:] == ["_internal_status", Opaque("LinkStatus.Open"), "status"] \
-                and acts[0][2][1][0] == Opaque("self._wn.get_link(link_name)")
+            ab = [bound(a) for a in acts]
+            a_ok = len(ab) == 2 and all(x.get("internal_attribute") == "_internal_status" and x.get("property_attribute") == "status" and x.get("target_obj") == Opaque("self._wn.get_link(link_name)") for x in ab) \
+                and ab[0].get("value") == Opaque("LinkStatus.Closed") and ab[1].get("value") == Opaque("LinkStatus.Open")
             chk.expect(a_ok, "R-C06-3", "%s: actions set the link's internal status (Closed / Open) and report `status`" % case, loc(tc, lp), found=[a[1] for a in acts])
             if vcs:
-                a0 = vcs[0][2][1]
-                okc = a0[0] == Opaque("tank") and a0[1] == "head" and isinstance(a0[2], Opaque) and a0[2].text == closing and is_zero(ex3.S(a0[3]) - want_h)
+                def vc_ok(ev_, rel, thr):
+                    b_ = bound(ev_)
+                    try:
+                        return b_.get("source_obj") == Opaque("tank") and b_.get("source_attr") == "head" and txt_(b_.get("relation")) == rel and "threshold" in b_ and is_zero(ex3.S(b_["threshold"]) - thr)
+                    except ExtractError:
+                        return False
+                okc = vc_ok(vcs[0], closing, want_h)
                 chk.expect(okc, "R-C06-3", "%s: closing condition is tank head %s %s_level + elevation" % (case, "<=" if lim == "min" else ">=", lim), loc(tc, lp), found=vcs[0][1])
-                k0 = ctl[0][2][2]
+                k0 = bound(ctl[0])
                 chk.expect(isinstance(k0.get("priority"), Opaque) and k0["priority"].text == "ControlPriority.medium" and k0.get("then_action") is not None and
                            isinstance(k0["then_action"], Opaque) and "LinkStatus.Closed" in k0["then_action"].text, "R-C06-3", "%s: closing control has medium priority and the closing action" % case, loc(tc, lp), found=ctl[0][1][:160])
                 chk.expect(bool(types) and types[0][1] == "_ControlType.pre_and_postsolve", "R-C06-3", "%s: closing control is pre- and post-solve (back-tracked to the limit)" % case, loc(tc, lp), found=types[:1])
             if not has_cv and len(vcs) == 3 and len(rcs) == 1 and len(ctl) == 3:
                 sgn = 1 if lim == "min" else -1
-                a1 = vcs[1][2][1]
-                ok1 = a1[0] == Opaque("tank") and a1[1] == "head" and a1[2].text == opening and is_zero(ex3.S(a1[3]) - (want_h + sgn * Htol))
+                ok1 = vc_ok(vcs[1], opening, want_h + sgn * Htol)
                 chk.expect(ok1, "R-C06-3", "%s: re-opening condition 1 is tank head %s limit %s Htol" % (case, ">=" if lim == "min" else "<=", "+" if lim == "min" else "-"), loc(tc, lp), found=vcs[1][1])
-                k1 = ctl[1][2][2]
-                chk.expect(k1["priority"].text == "ControlPriority.low" and "LinkStatus.Open" in k1["then_action"].text and types[1][1] == "_ControlType.postsolve", "R-C06-3",
+                k1 = bound(ctl[1])
+                chk.expect(txt_(k1.get("priority")) == "ControlPriority.low" and "LinkStatus.Open" in str(txt_(k1.get("then_action"))) and types[1][1] == "_ControlType.postsolve", "R-C06-3",
                            "%s: re-opening control 1 is low priority, post-solve, opening" % case, loc(tc, lp), found=ctl[1][1][:120])
-                r2 = rcs[0][2][1]
-                a2 = vcs[2][2][1]
-                ok2 = r2[0] == Opaque("tank") and r2[1] == "head" and r2[2].text == closing and r2[4] == "head" and a2[2].text == closing and is_zero(ex3.S(a2[3]) - (want_h + sgn * Htol))
-                other_ok = isinstance(r2[3], Opaque) and r2[3].text in ("self._wn.get_link(link_name).end_node", "self._wn.get_link(link_name).start_node")
+                r2 = bound(rcs[0])
+                other = r2.get("threshold_obj")
+                ok2 = r2.get("source_obj") == Opaque("tank") and r2.get("source_attr") == "head" and txt_(r2.get("relation")) == closing and r2.get("threshold_attr") == "head" and vc_ok(vcs[2], closing, want_h + sgn * Htol)
+                other_ok = isinstance(other, Opaque) and other.text in ("self._wn.get_link(link_name).end_node", "self._wn.get_link(link_name).start_node")
                 chk.expect(ok2 and other_ok, "R-C06-3", "%s: re-opening condition 2 is (tank head %s other node's head) and (tank head %s limit %s Htol)" % (case, "<=" if lim == "min" else ">=", "<=" if lim == "min" else ">=", "+" if lim == "min" else "-"),
                            loc(tc, lp), found=(rcs[0][1], vcs[2][1]))
-                k2 = ctl[2][2][2]
-                chk.expect(k2["priority"].text == "ControlPriority.high" and "LinkStatus.Open" in k2["then_action"].text and "AndCondition" in k2["condition"].text and types[2][1] == "_ControlType.postsolve", "R-C06-3",
+                k2 = bound(ctl[2])
+                chk.expect(txt_(k2.get("priority")) == "ControlPriority.high" and "LinkStatus.Open" in str(txt_(k2.get("then_action"))) and "AndCondition" in str(txt_(k2.get("condition"))) and types[2][1] == "_ControlType.postsolve", "R-C06-3",
                            "%s: re-opening control 2 is high priority, post-solve, opening, conjunction of both conditions" % case, loc(tc, lp), found=ctl[2][1][:160])
                 # the `other node` is the end opposite to the tank
                 st_is = [v for t, v in o.conds if t in (eq_atom("self._wn.get_link(link_name).start_node", "tank", "is"), eq_atom("self._wn.get_link(link_name).start_node", "tank"))]
                 if st_is:
                     wanto = "self._wn.get_link(link_name).end_node" if st_is[0] else "self._wn.get_link(link_name).start_node"
-                    chk.expect(r2[3].text == wanto, "R-C06-3", "%s: the comparison node is the link's other end [tank is start=%s]" % (case, st_is[0]), loc(tc, lp), found=r2[3].text)
+                    chk.expect(txt_(other) == wanto, "R-C06-3", "%s: the comparison node is the link's other end [tank is start=%s]" % (case, st_is[0]), loc(tc, lp), found=txt_(other))
             elif not has_cv:
                 chk.bad("R-C06-3", "%s: two re-opening controls are created for links without a check valve" % case, loc(tc, lp), found=(len(vcs), len(rcs), len(ctl)))
         chk.expect(ncase >= 6, "R-C06-3", "%s limit: all link kinds/orientations enumerated" % lim, loc(tc, lp), found=ncase)
